@@ -347,7 +347,7 @@ def run(ctx, out, budget):
                 "array, view, indexed} whose text must differ; no call may raise; rows ordered by begin asc / end desc; every text is "
                 "also produced by the Lean model (cells -> csv via the same stdlib writer). Non-trivial = distinct (CAS, variant) pairs.")
     rng = ctx.rng(0)
-    n = 40 if budget == "quick" else 700
+    n = 40 if budget == "quick" else 5600
     sess, metas = [], []
     for k in range(n):
         spec = gen_spec(rng, rng.randint(2, 8))
